@@ -256,7 +256,21 @@ func (t *ftr) stmts(list []ast.Stmt, d int) (string, error) {
 		if len(s.Results) != 1 {
 			return "", fmt.Errorf("return with %d results", len(s.Results))
 		}
-		e, et, err := t.expr(s.Results[0], t.ret)
+		res := s.Results[0]
+		if t.spec.RetElem != nil {
+			if u, ok := res.(*ast.UnaryExpr); ok && u.Op == token.AND {
+				res = u.X
+			}
+			cl, ok := res.(*ast.CompositeLit)
+			if !ok || *t.spec.RetElem >= len(cl.Elts) {
+				return "", fmt.Errorf("retelem: return value is not a composite literal with element %d", *t.spec.RetElem)
+			}
+			res = cl.Elts[*t.spec.RetElem]
+			if kv, ok := res.(*ast.KeyValueExpr); ok {
+				res = kv.Value
+			}
+		}
+		e, et, err := t.expr(res, t.ret)
 		if err != nil {
 			return "", err
 		}
@@ -266,9 +280,27 @@ func (t *ftr) stmts(list []ast.Stmt, d int) (string, error) {
 		}
 		return ind(d) + e, nil
 	case *ast.AssignStmt:
+		if len(s.Lhs) == 1 {
+			if id, ok := s.Lhs[0].(*ast.Ident); ok {
+				for _, sk := range t.spec.Skip {
+					if sk == id.Name {
+						return t.stmts(rest, d)
+					}
+				}
+			}
+		}
 		line, err := t.assign(s)
 		if err != nil {
 			return "", err
+		}
+		if t.spec.RetVar != "" && len(s.Lhs) == 1 {
+			if id, ok := s.Lhs[0].(*ast.Ident); ok && id.Name == t.spec.RetVar {
+				e, err := t.coerce(id.Name, t.vars[id.Name], t.ret)
+				if err != nil {
+					return "", err
+				}
+				return ind(d) + line + "\n" + ind(d) + e, nil
+			}
 		}
 		r, err := t.stmts(rest, d)
 		if err != nil {
@@ -528,13 +560,12 @@ func (t *ftr) block(list []ast.Stmt, tuple string, d int) (string, error) {
 			}
 			fmt.Fprintf(&out, "%slet %s := %s %s 1#%d\n", ind(d), id.Name, id.Name, op, t.vars[id.Name].w)
 		case *ast.IfStmt:
-			s, err := t.stmts([]ast.Stmt{x, &ast.ReturnStmt{Results: []ast.Expr{ast.NewIdent("__tuple__")}}}, d)
+			// nested non-returning if (e.g. an `else if` chain): a let-bound conditional over the variables it assigns
+			line, err := t.nonRetIf(x, d)
 			if err != nil {
 				return "", err
 			}
-			// the synthetic return is replaced by the tuple
-			_ = s
-			return "", fmt.Errorf("nested non-returning if not supported")
+			out.WriteString(line + "\n")
 		default:
 			return "", fmt.Errorf("unsupported statement %T in block", st)
 		}
@@ -543,7 +574,132 @@ func (t *ftr) block(list []ast.Stmt, tuple string, d int) (string, error) {
 	return out.String(), nil
 }
 
+// nonRetIf translates an if statement none of whose branches returns, as
+// `let (vars) := if c then … else …` over the already declared variables it assigns.
+func (t *ftr) nonRetIf(s *ast.IfStmt, d int) (string, error) {
+	if s.Init != nil {
+		return "", fmt.Errorf("if with init statement")
+	}
+	c, ct, err := t.expr(s.Cond, ty{bool: true})
+	if err != nil {
+		return "", err
+	}
+	if !ct.bool {
+		return "", fmt.Errorf("non-boolean condition")
+	}
+	var el []ast.Stmt
+	switch e := s.Else.(type) {
+	case *ast.BlockStmt:
+		el = e.List
+	case *ast.IfStmt:
+		el = []ast.Stmt{e}
+	}
+	vs, err := assignedVars(s)
+	if err != nil {
+		return "", err
+	}
+	for _, v := range vs {
+		if _, ok := t.vars[v]; !ok {
+			return "", fmt.Errorf("if assigns undeclared variable %s", v)
+		}
+	}
+	tuple := strings.Join(vs, ", ")
+	if len(vs) > 1 {
+		tuple = "(" + tuple + ")"
+	}
+	a, err := t.block(s.Body.List, tuple, d+1)
+	if err != nil {
+		return "", err
+	}
+	b, err := t.block(el, tuple, d+1)
+	if err != nil {
+		return "", err
+	}
+	return fmt.Sprintf("%slet %s :=\n%sif %s then\n%s\n%selse\n%s", ind(d), tuple, ind(d+1), c, a, ind(d+1), b), nil
+}
+
+// bitsIntrinsic translates `a, b := bits.Mul64(x, y)` / `bits.Add64(x, y, c)` / `bits.Div64(hi, lo, y)` (math/bits,
+// uint64 double-word arithmetic) into two let bindings over BitVec 128. The run-time panics of Div64 (y == 0,
+// y <= hi) are not expressible in a total BitVec function: the translation is the quotient/remainder of the
+// 128-bit value, which is what Div64 returns whenever it does not panic.
+func (t *ftr) bitsIntrinsic(s *ast.AssignStmt) (string, bool, error) {
+	if len(s.Lhs) != 2 || len(s.Rhs) != 1 {
+		return "", false, nil
+	}
+	call, ok := s.Rhs[0].(*ast.CallExpr)
+	if !ok {
+		return "", false, nil
+	}
+	name := exprText(t.fset, call.Fun)
+	if name != "bits.Mul64" && name != "bits.Add64" && name != "bits.Div64" {
+		return "", false, nil
+	}
+	u64 := ty{w: 64}
+	var args []string
+	for _, a := range call.Args {
+		e, et, err := t.expr(a, u64)
+		if err != nil {
+			return "", true, err
+		}
+		e, err = t.coerce(e, et, u64)
+		if err != nil {
+			return "", true, err
+		}
+		args = append(args, fmt.Sprintf("(BitVec.setWidth 128 %s)", e))
+	}
+	var first, second string
+	switch name {
+	case "bits.Mul64":
+		if len(args) != 2 {
+			return "", true, fmt.Errorf("bits.Mul64 arity")
+		}
+		p := fmt.Sprintf("(%s * %s)", args[0], args[1])
+		first, second = fmt.Sprintf("(BitVec.setWidth 64 (%s >>> (64 : Nat)))", p), fmt.Sprintf("(BitVec.setWidth 64 %s)", p)
+	case "bits.Add64":
+		if len(args) != 3 {
+			return "", true, fmt.Errorf("bits.Add64 arity")
+		}
+		p := fmt.Sprintf("(%s + %s + %s)", args[0], args[1], args[2])
+		first, second = fmt.Sprintf("(BitVec.setWidth 64 %s)", p), fmt.Sprintf("(BitVec.setWidth 64 (%s >>> (64 : Nat)))", p)
+	case "bits.Div64":
+		if len(args) != 3 {
+			return "", true, fmt.Errorf("bits.Div64 arity")
+		}
+		p := fmt.Sprintf("((%s <<< (64 : Nat)) ||| %s)", args[0], args[1])
+		first, second = fmt.Sprintf("(BitVec.setWidth 64 (%s / %s))", p, args[2]), fmt.Sprintf("(BitVec.setWidth 64 (%s %% %s))", p, args[2])
+	}
+	var lines []string
+	for i, val := range []string{first, second} {
+		id, ok := s.Lhs[i].(*ast.Ident)
+		if !ok {
+			return "", true, fmt.Errorf("assignment to non-identifier %s", exprText(t.fset, s.Lhs[i]))
+		}
+		if id.Name == "_" {
+			continue
+		}
+		if s.Tok != token.DEFINE {
+			if _, ok := t.vars[id.Name]; !ok {
+				return "", true, fmt.Errorf("assignment to unknown variable %s", id.Name)
+			}
+		}
+		// both values are computed from the operands before either name is rebound
+		lines = append(lines, fmt.Sprintf("let %s__%d : BitVec 64 := %s", id.Name, i, val))
+	}
+	for i := range []int{0, 1} {
+		id := s.Lhs[i].(*ast.Ident)
+		if id.Name == "_" {
+			continue
+		}
+		t.vars[id.Name] = u64
+		lines = append(lines, fmt.Sprintf("let %s : BitVec 64 := %s__%d", id.Name, id.Name, i))
+	}
+	return strings.Join(lines, "; "), true, nil // one line: the caller indents it
+}
+
 func (t *ftr) assign(s *ast.AssignStmt) (string, error) {
+	if line, ok, err := t.bitsIntrinsic(s); ok {
+		return line, err
+	}
 	if len(s.Lhs) != 1 || len(s.Rhs) != 1 {
 		return "", fmt.Errorf("multi-assignment")
 	}
